@@ -450,9 +450,8 @@ func (en *enum) instrs(st *state, b *ssa.BasicBlock, from int) {
 				}
 				if en.cfg.Loads {
 					if al, ok := ins.X.(*ssa.Alloc); ok {
-						if v, ok := st.mem[al]; ok {
-							st.events = append(st.events, Event{Kind: KLoad, Instr: ins, Fn: fr.fn, Depth: fr.depth, Addr: al, Result: ins, Val: v})
-						}
+						// Val is nil when nothing was stored on this path (zero value or unknown)
+						st.events = append(st.events, Event{Kind: KLoad, Instr: ins, Fn: fr.fn, Depth: fr.depth, Addr: al, Result: ins, Val: st.mem[al]})
 					}
 					if _, ok := ins.X.(*ssa.FieldAddr); ok {
 						st.events = append(st.events, Event{Kind: KLoad, Instr: ins, Fn: fr.fn, Depth: fr.depth, Addr: st.resolveAddr(ins.X), Result: ins})
